@@ -957,6 +957,20 @@ def fold_new_module_constants(tree, ref):
         if isinstance(n, ast.Global):
             for nm in n.names:
                 new.pop(nm, None)
+        # a container that is written to is state, not a constant
+        if isinstance(n, ast.Subscript) and isinstance(
+                n.ctx, (ast.Store, ast.Del)) and isinstance(
+                    n.value, ast.Name):
+            new.pop(n.value.id, None)
+        if isinstance(n, ast.Call) and isinstance(n.func, ast.Attribute) \
+                and n.func.attr in MUTATORS and isinstance(
+                    n.func.value, ast.Name):
+            new.pop(n.func.value.id, None)
+        if isinstance(n, ast.AugAssign) and isinstance(n.target, ast.Name):
+            new.pop(n.target.id, None)
+    new = {k: v for k, v in new.items() if not (
+        isinstance(v, (ast.List, ast.Set, ast.Dict, ast.Tuple)) and
+        not (v.keys if isinstance(v, ast.Dict) else v.elts))}
     if not new:
         return tree
     for q, fn, cls in qualnames(tree):
